@@ -41,8 +41,31 @@ type fileObj struct {
 	name    string
 	content []Value // byte values
 	rpos    int
+	wpos    int  // next write offset when positional
+	posw    bool // opened without O_TRUNC/O_APPEND over existing content: writes overwrite in place
 	closed  bool
 	std     string
+}
+
+// put writes src at the file's write position: at the end, or — for a file opened over existing
+// content without truncation — in place from offset 0 on, leaving any longer old tail behind.
+func (f *fileObj) put(src []Value) {
+	if !f.posw {
+		n := make([]Value, 0, len(f.content)+len(src))
+		n = append(n, f.content...)
+		f.content = append(n, src...)
+		return
+	}
+	n := append([]Value{}, f.content...)
+	for i, b := range src {
+		if f.wpos+i < len(n) {
+			n[f.wpos+i] = b
+		} else {
+			n = append(n, b)
+		}
+	}
+	f.wpos += len(src)
+	f.content = n
 }
 
 func (e *Engine) env() *envState {
@@ -129,7 +152,16 @@ func (e *Engine) setFlag(cmd *Value, name string, raw Value) Value {
 	case "uint", "uint8", "int":
 		rs, ok := raw.(string)
 		if !ok {
-			e.abort(abortEngine, "symbolic text for a numeric flag")
+			// symbolic text: pflag's uintValue.Set is strconv.ParseUint(s, 0, 64)
+			if _, sym := raw.(*SymStr); !sym || d.kind != "uint" {
+				e.abort(abortEngine, "symbolic text for a numeric flag other than uint")
+			}
+			res := e.callModel("ParseUintBase", raw, int64(0)).(tuple)
+			if !e.branch(res[1]) {
+				return e.newErr("invalid argument for --" + name)
+			}
+			v = res[0]
+			break
 		}
 		switch d.kind {
 		case "uint":
@@ -330,6 +362,32 @@ func registerEnv(e *Engine) {
 		e.env().files[name] = f
 		return tuple{&hostObj{tag: "os.File", v: f}, iface{}}
 	}
+	r["os.OpenFile"] = func(e *Engine, fr *frame, args []Value, site ssa.CallInstruction) Value {
+		name := mustStr(e, args[0], "file name")
+		flag := asInt(args[1])
+		const oWRONLY, oRDWR, oCREATE, oEXCL, oTRUNC, oAPPEND = 0x1, 0x2, 0x40, 0x80, 0x200, 0x400
+		old, exists := e.env().files[name]
+		noent := tuple{(*hostObj)(nil), e.newErr("open " + name + ": no such file or directory")}
+		if name == "" || strings.HasSuffix(name, "/") || strings.HasPrefix(name, "/nonexistent/") {
+			return noent
+		}
+		if !exists && flag&oCREATE == 0 {
+			return noent
+		}
+		if exists && flag&oCREATE != 0 && flag&oEXCL != 0 {
+			return tuple{(*hostObj)(nil), e.newErr("open " + name + ": file exists")}
+		}
+		if flag&(oWRONLY|oRDWR) == 0 {
+			return tuple{&hostObj{tag: "os.File", v: &fileObj{name: name, content: old.content}}, iface{}}
+		}
+		f := &fileObj{name: name}
+		if exists && flag&oTRUNC == 0 {
+			f.content = append([]Value{}, old.content...)
+			f.posw = flag&oAPPEND == 0
+		}
+		e.env().files[name] = f
+		return tuple{&hostObj{tag: "os.File", v: f}, iface{}}
+	}
 	r["os.WriteFile"] = func(e *Engine, fr *frame, args []Value, site ssa.CallInstruction) Value {
 		name := mustStr(e, args[0], "file name")
 		src := args[1].(sliceV).a
@@ -359,10 +417,7 @@ func registerEnv(e *Engine) {
 		if f.closed {
 			return tuple{int64(0), e.newErr("write " + f.name + ": file already closed")}
 		}
-		n := make([]Value, 0, len(f.content)+len(src))
-		n = append(n, f.content...)
-		n = append(n, src...)
-		f.content = n
+		f.put(src)
 		if f.std == "stdout" {
 			e.stdout = append(e.stdout, e.byteValsToStr(src))
 		}
@@ -371,7 +426,7 @@ func registerEnv(e *Engine) {
 	r["(*os.File).WriteString"] = func(e *Engine, fr *frame, args []Value, site ssa.CallInstruction) Value {
 		f := e.fileOf(args[0])
 		bs := e.strToByteVals(args[1])
-		f.content = append(append([]Value{}, f.content...), bs...)
+		f.put(bs)
 		return tuple{int64(len(bs)), iface{}}
 	}
 	r["(*os.File).Close"] = func(e *Engine, fr *frame, args []Value, site ssa.CallInstruction) Value {
